@@ -42,6 +42,7 @@ struct CrashMarker {
   volatile int sub;           // op specific (bad call kind, callback index...)
   volatile int phase;         // 0 idle 1 in library 2 in callback agent 3 in oracle
   volatile int dom07;         // 1: the state the current op started from is inside the C07 domain
+  volatile int dom06;         // 1: ... inside the C06 domain (global placement ops)
   char note[96];
 };
 void setCrashMarker(CrashMarker *m);
